@@ -86,3 +86,64 @@ pub fn to_tantivy(uid: u64, d: &RichDoc, f: &RichFields) -> TantivyDocument {
     }
     t
 }
+
+/// kind of the sort-key field: 0 u64, 1 i64, 2 f64, 3 date, 4 str, 5 bytes
+pub fn rich_schema_sorted(kind: u8) -> (Schema, RichFields) {
+    let mut sb = Schema::builder();
+    let uid = sb.add_u64_field("uid", FAST | INDEXED | STORED);
+    let title = sb.add_text_field("title", TEXT | STORED);
+    let tag = sb.add_text_field("tag", STRING | STORED | FAST);
+    let num = sb.add_i64_field("num", FAST | INDEXED | STORED);
+    let f = sb.add_f64_field("f", FAST | STORED);
+    let ft_opts = TextOptions::default().set_indexing_options(TextFieldIndexing::default().set_tokenizer("default").set_index_option(IndexRecordOption::WithFreqs));
+    let ft = sb.add_text_field("ft", ft_opts);
+    let sortkey = match kind {
+        0 => sb.add_u64_field("sortkey", FAST | STORED),
+        1 => sb.add_i64_field("sortkey", FAST | STORED),
+        2 => sb.add_f64_field("sortkey", FAST | STORED),
+        3 => sb.add_date_field("sortkey", FAST | STORED),
+        4 => sb.add_text_field("sortkey", STRING | FAST | STORED),
+        _ => sb.add_bytes_field("sortkey", FAST | STORED),
+    };
+    let blob = sb.add_bytes_field("blob", STORED);
+    (sb.build(), RichFields { uid, title, tag, num, f, ft, sortkey, blob })
+}
+
+/// Adds the sort value `x` (None = no value) in the representation of `kind`; the mapping is strictly monotone.
+pub fn add_sort_value(t: &mut TantivyDocument, f: &RichFields, kind: u8, x: Option<i16>) {
+    let Some(x) = x else { return };
+    match kind {
+        0 => t.add_u64(f.sortkey, match x { i16::MIN => 0, i16::MAX => u64::MAX, v => (v as i64 + 40_000) as u64 }),
+        1 => t.add_i64(f.sortkey, match x { i16::MIN => i64::MIN, i16::MAX => i64::MAX, v => v as i64 }),
+        2 => t.add_f64(f.sortkey, match x { i16::MIN => f64::NEG_INFINITY, i16::MAX => f64::INFINITY, v => v as f64 * 0.5 }),
+        3 => t.add_date(f.sortkey, tantivy::DateTime::from_timestamp_secs(match x { i16::MIN => -8_000_000_000, i16::MAX => 8_000_000_000, v => v as i64 * 3600 })),
+        4 => t.add_text(f.sortkey, match x { i16::MIN => String::new(), v => format!("k{:05}", v as i32 + 40_000) }),
+        _ => t.add_bytes(f.sortkey, &match x { i16::MIN => vec![], i16::MAX => vec![255u8, 255, 255], v => ((v as i32 + 40_000) as u16).to_be_bytes().to_vec() }),
+    }
+}
+
+pub fn to_tantivy_sorted(uid: u64, d: &RichDoc, f: &RichFields, kind: u8, x: Option<i16>) -> TantivyDocument {
+    let mut t = TantivyDocument::new();
+    t.add_u64(f.uid, uid);
+    for v in &d.title {
+        t.add_text(f.title, words(v));
+    }
+    for tag in &d.tags {
+        t.add_text(f.tag, format!("t{tag}"));
+    }
+    for n in &d.nums {
+        t.add_i64(f.num, *n as i64);
+    }
+    if let Some(x) = d.f {
+        t.add_f64(f.f, x as f64 * 0.5);
+    }
+    if !d.ft.is_empty() {
+        t.add_text(f.ft, words(&d.ft));
+    }
+    add_sort_value(&mut t, f, kind, x);
+    if d.blob_len > 0 {
+        let bytes: Vec<u8> = (0..d.blob_len as usize).map(|i| (i as u8).wrapping_mul(31).wrapping_add(uid as u8)).collect();
+        t.add_bytes(f.blob, &bytes);
+    }
+    t
+}
